@@ -202,6 +202,12 @@ func (fx *FnExec) frameEnv(st *State, fr *frame) *evalEnv {
 				}
 			}
 			if len(live) != 1 {
+				// several definitions ran: the one the name denoted most recently
+				if v, ok := st.names[fmt.Sprintf("%p|%s", fr.fn, name)]; ok {
+					if t, ok := st.vals[v]; ok {
+						env.vars[name] = cval{t: t, typ: v.Type(), sort: fx.sortOf(v.Type()), lv: st.lvs[v]}
+					}
+				}
 				continue
 			}
 			v := live[0]
@@ -1183,6 +1189,15 @@ func (fx *FnExec) staticModTargets(m Expr, fc *FuncContract, fn *ssa.Function) [
 // wholeFieldTarget: `modifies T.f` with T a struct type name denotes the field
 // f of EVERY T object.
 func (fx *FnExec) wholeFieldTarget(x *EField, isVar func(string) bool, pkg *types.Package) (heapVarRef, bool) {
+	if q, isQ := x.X.(*EField); isQ {
+		// pkg.Type.field
+		if pid, isID := q.X.(*EIdent); isID && !isVar(pid.Name) {
+			if p := fx.P.lookupPkg(pid.Name); p != nil {
+				return fx.wholeFieldTarget(&EField{X: &EIdent{Name: q.Name}, Name: x.Name}, func(string) bool { return false }, p)
+			}
+		}
+		return heapVarRef{}, false
+	}
 	id, ok := x.X.(*EIdent)
 	if !ok || isVar(id.Name) || pkg == nil {
 		return heapVarRef{}, false
